@@ -303,12 +303,16 @@ macro_rules! math_binop {
     }
 }
 
+/// The longest sequence that a deep chain of `+` is collapsed into eagerly.
+const MAX_MATERIALIZED_SEQ_LEN: usize = 1_000_000;
+
 fn seq_concat_len(lhs: &Value, rhs: &Value) -> Option<usize> {
     lhs.len()?.checked_add(rhs.len()?)
 }
 
 fn materialize_seq_concat(lhs: &Value, rhs: &Value, len: usize) -> Result<Value, Error> {
-    let mut rv = Vec::with_capacity(len);
+    // the length of a lazily repeated sequence is not backed by memory
+    let mut rv = Vec::with_capacity(crate::utils::untrusted_size_hint(len));
     rv.extend(ok!(lhs.try_iter()));
     rv.extend(ok!(rhs.try_iter()));
     Ok(Value::from(rv))
@@ -338,7 +342,10 @@ pub fn add(lhs: &Value, rhs: &Value) -> Result<Value, Error> {
         // unsized iterables may represent streams and must not be consumed, so
         // `MergeSeq` flattens only its own lazy structure instead.
         if depth > MergeSeq::MAX_DEPTH {
-            if let Some(len) = seq_concat_len(lhs, rhs) {
+            // a lazily repeated sequence can claim any length: only what
+            // reasonably fits into memory is materialized, the rest stays lazy
+            let len = seq_concat_len(lhs, rhs).filter(|&len| len <= MAX_MATERIALIZED_SEQ_LEN);
+            if let Some(len) = len {
                 return materialize_seq_concat(lhs, rhs, len);
             }
         }
